@@ -88,6 +88,13 @@ fn registry() -> Vec<CheckDef>
 			case_timeout_ms: 20_000,
 			level_text: "exhaustive enumeration (up to renaming) of all function bodies built from two variables, their uses, two labels, gotos, conditional gotos, loops and nested blocks up to a size bound, each compiled by the real first-generation pipeline and judged against the scoping model (lexical rules, documented prune rule) and an independent control-flow path analysis",
 		},
+		CheckDef {
+			id: "C07",
+			drive: checks::c07::drive,
+			work: checks::c07::work,
+			case_timeout_ms: 20_000,
+			level_text: "complete enumeration of the finite type matrix (operators, comparisons, unary operators and casts over 18 operand forms, and 13 target types x 18 source operands in 8 contexts, call arities, access operations), one program per cell through the real pipeline, judged against a type-rule table; plus an invariant monitor over the resolved tree of every accepted program",
+		},
 	]
 }
 
@@ -129,6 +136,34 @@ fn main()
 			let v: Value = serde_json::from_str(&text).expect("bad replay file");
 			let def = find(v["property"].as_str().unwrap());
 			std::process::exit(run_check(def, "quick", Some(v)));
+		}
+		"debug-typer" =>
+		{
+			use penne::alpha::{expander, lexer, parser, rebuilder, scoper, typer};
+			let src = std::fs::read_to_string(&args[2]).unwrap();
+			let decls = parser::parse(lexer::lex(&src, "m.pn"));
+			let decls = expander::expand_one("m.pn", decls);
+			let decls = scoper::analyze(decls);
+			let mut t = typer::Typer::default();
+			let decls: Vec<_> = decls.into_iter().map(|d| t.declare(d)).collect();
+			let decls: Vec<_> = decls.into_iter().map(|d| t.analyze(d)).collect();
+			let ind = rebuilder::Indentation { value: "  ", amount: 0 };
+			println!("{}", rebuilder::rebuild(&decls, &ind).unwrap());
+			let mut a = penne::alpha::analyzer::Analyzer::default();
+			for d in &decls
+			{
+				a.declare(d);
+			}
+			let decls: Vec<_> = decls.into_iter().map(|d| a.analyze(d)).collect();
+			println!("--- after analyzers\n{}", rebuilder::rebuild(&decls, &ind).unwrap());
+			for d in decls
+			{
+				match penne::alpha::resolver::resolve(d)
+				{
+					Ok(_) => println!("resolved ok"),
+					Err(e) => println!("errors: {:?}", e.codes()),
+				}
+			}
 		}
 		"list" =>
 		{
